@@ -16,10 +16,11 @@ theorem toNat_succ_cast (order : ℤ) (h : order = 1 ∨ order = 2) :
     1 ≤ order.toNat ∧ (order + 1).toNat = order.toNat + 1 ∧ ((order.toNat : ℕ) : ℤ) = order := by
   rcases h with rfl | rfl <;> decide
 
-/-- the dispatched kernel of one bin, fed the way `coreStep` feeds it, is the reference estimator (cross mode) -/
+/-- the dispatched kernel of one bin, fed the way `coreStep` feeds it, is the reference estimator (cross mode).
+    The column count of the basis matters for the polynomial orders only (for orders −1, 0 no basis is handed over). -/
 theorem dispatch_eq_ref_cross (order : ℤ) (hord : order = -1 ∨ order = 0 ∨ order = 1 ∨ order = 2)
     (x1 x2 : Arr ℝ) (fs : ℝ) (b : Model.PBin ℝ) (hK : 0 < b.D.n) (w : Arr ℝ) (Q : Arr2 ℝ)
-    (hQ : Q.m = (order + 1).toNat) :
+    (hQ : order = 1 ∨ order = 2 → Q.m = (order + 1).toNat) :
     Model.dispatch true order x1 x2 fs b w (if order = 1 ∨ order = 2 then some Q else none)
       = Model.refStats order Q.get x1.get x2.get b.D.get b.D.n b.L w.get (2 * Real.pi * b.f / fs) := by
   have hω : (RealLike.two * RealLike.pi * b.f / fs : ℝ) = 2 * Real.pi * b.f / fs := by
@@ -35,14 +36,14 @@ theorem dispatch_eq_ref_cross (order : ℤ) (hord : order = -1 ∨ order = 0 ∨
     have h0 : ¬ (order = 0) := by rcases h12 with rfl | rfl <;> decide
     simp only [Model.dispatch, if_true, if_neg hm1, if_neg h0, if_pos h12, hω]
     have := stats_poly_csd_eq_ref x1 x2 b.D hK b.L w (2 * Real.pi * b.f / fs) Q order.toNat hp
-      (hQ.trans hp1)
+      ((hQ h12).trans hp1)
     rw [hcast] at this
     exact this
 
 /-- the same in auto mode -/
 theorem dispatch_eq_ref_auto (order : ℤ) (hord : order = -1 ∨ order = 0 ∨ order = 1 ∨ order = 2)
     (x1 x2 : Arr ℝ) (fs : ℝ) (b : Model.PBin ℝ) (hK : 0 < b.D.n) (w : Arr ℝ) (Q : Arr2 ℝ)
-    (hQ : Q.m = (order + 1).toNat) :
+    (hQ : order = 1 ∨ order = 2 → Q.m = (order + 1).toNat) :
     Model.dispatch false order x1 x2 fs b w (if order = 1 ∨ order = 2 then some Q else none)
       = Model.refStatsAuto order Q.get x1.get b.D.get b.D.n b.L w.get (2 * Real.pi * b.f / fs) := by
   have hω : (RealLike.two * RealLike.pi * b.f / fs : ℝ) = 2 * Real.pi * b.f / fs := by
@@ -59,7 +60,7 @@ theorem dispatch_eq_ref_auto (order : ℤ) (hord : order = -1 ∨ order = 0 ∨ 
     have h0 : ¬ (order = 0) := by rcases h12 with rfl | rfl <;> decide
     simp only [Model.dispatch, if_neg hm1, if_neg h0, if_pos h12, if_neg hf, hω]
     have := stats_poly_auto_eq_ref x1 b.D hK b.L w (2 * Real.pi * b.f / fs) Q order.toNat hp
-      (hQ.trans hp1)
+      ((hQ h12).trans hp1)
     rw [hcast] at this
     exact this
 
@@ -75,11 +76,14 @@ theorem lpsdCore_eq_map (iscsd : Bool) (order : ℤ) (x1 x2 : Arr ℝ) (fs : ℝ
 /-! ### the main theorems -/
 
 /-- bin j of the computed spectrum is the reference estimator on the bin's own (f, L, D), with the window
-    for that L and (orders 1,2) the basis for (L, order) -/
+    for that L and (orders 1,2) the basis for (L, order).
+    `hQ` (column count of the basis) is asked ONLY for the polynomial orders and ONLY at the segment lengths of the plan's own bins:
+    the library's `_build_Q(L, p)` has `min(L, p+1)` columns (Props/BuildQGen), so a hypothesis "for every L" is false of it at `L ≤ p`
+    and no real run would satisfy it; Props/PipelineClosed instantiates this form with the translated `_build_Q`. -/
 theorem lpsdCore_eq_ref_cross (order : ℤ) (hord : order = -1 ∨ order = 0 ∨ order = 1 ∨ order = 2)
     (x1 x2 : Arr ℝ) (fs : ℝ)
-    (mkWin : ℕ → Arr ℝ) (mkQ : ℕ → ℤ → Arr2 ℝ) (hQ : ∀ L, (mkQ L order).m = (order + 1).toNat)
-    (bins : List (Model.PBin ℝ))
+    (mkWin : ℕ → Arr ℝ) (mkQ : ℕ → ℤ → Arr2 ℝ) (bins : List (Model.PBin ℝ))
+    (hQ : order = 1 ∨ order = 2 → ∀ b ∈ bins, (mkQ b.L order).m = (order + 1).toNat)
     (hK : ∀ b ∈ bins, 0 < b.D.n) :
     Model.lpsdCore true order x1 x2 fs mkWin mkQ bins
       = bins.map (fun b => Model.refStats order (mkQ b.L order).get x1.get x2.get b.D.get b.D.n b.L
@@ -87,12 +91,12 @@ theorem lpsdCore_eq_ref_cross (order : ℤ) (hord : order = -1 ∨ order = 0 ∨
   rw [lpsdCore_eq_map]
   apply List.map_congr_left
   intro b hb
-  exact dispatch_eq_ref_cross order hord x1 x2 fs b (hK b hb) (mkWin b.L) (mkQ b.L order) (hQ b.L)
+  exact dispatch_eq_ref_cross order hord x1 x2 fs b (hK b hb) (mkWin b.L) (mkQ b.L order) (fun h => hQ h b hb)
 
 theorem lpsdCore_eq_ref_auto (order : ℤ) (hord : order = -1 ∨ order = 0 ∨ order = 1 ∨ order = 2)
     (x1 x2 : Arr ℝ) (fs : ℝ)
-    (mkWin : ℕ → Arr ℝ) (mkQ : ℕ → ℤ → Arr2 ℝ) (hQ : ∀ L, (mkQ L order).m = (order + 1).toNat)
-    (bins : List (Model.PBin ℝ))
+    (mkWin : ℕ → Arr ℝ) (mkQ : ℕ → ℤ → Arr2 ℝ) (bins : List (Model.PBin ℝ))
+    (hQ : order = 1 ∨ order = 2 → ∀ b ∈ bins, (mkQ b.L order).m = (order + 1).toNat)
     (hK : ∀ b ∈ bins, 0 < b.D.n) :
     Model.lpsdCore false order x1 x2 fs mkWin mkQ bins
       = bins.map (fun b => Model.refStatsAuto order (mkQ b.L order).get x1.get b.D.get b.D.n b.L
@@ -100,7 +104,7 @@ theorem lpsdCore_eq_ref_auto (order : ℤ) (hord : order = -1 ∨ order = 0 ∨ 
   rw [lpsdCore_eq_map]
   apply List.map_congr_left
   intro b hb
-  exact dispatch_eq_ref_auto order hord x1 x2 fs b (hK b hb) (mkWin b.L) (mkQ b.L order) (hQ b.L)
+  exact dispatch_eq_ref_auto order hord x1 x2 fs b (hK b hb) (mkWin b.L) (mkQ b.L order) (fun h => hQ h b hb)
 
 /-- a cached window or basis is never used for another length: the result for a bin depends only on that bin -/
 theorem lpsdCore_bin_local (iscsd : Bool) (order : ℤ) (x1 x2 : Arr ℝ) (fs : ℝ)
@@ -170,30 +174,30 @@ theorem segDFT_order1_add_line (Q : ℕ → ℕ → ℝ) (L : ℕ) (hO : OrthoCo
   ring
 
 theorem lpsdCore_order1_add_line_auto (x1 x2 : Arr ℝ) (fs : ℝ)
-    (mkWin : ℕ → Arr ℝ) (mkQ : ℕ → ℤ → Arr2 ℝ) (hQ : ∀ L, (mkQ L 1).m = 2)
-    (bins : List (Model.PBin ℝ)) (hK : ∀ b ∈ bins, 0 < b.D.n)
+    (mkWin : ℕ → Arr ℝ) (mkQ : ℕ → ℤ → Arr2 ℝ)
+    (bins : List (Model.PBin ℝ)) (hQ : ∀ b ∈ bins, (mkQ b.L 1).m = 2) (hK : ∀ b ∈ bins, 0 < b.D.n)
     (hO : ∀ b ∈ bins, OrthoCols (mkQ b.L 1).get b.L 2)
     (hS : ∀ b ∈ bins, ∀ c d : ℝ, InSpan (mkQ b.L 1).get b.L 2 (fun n => c + d * n)) (a c : ℝ) :
     Model.lpsdCore false 1 ⟨x1.n, fun m => x1.get m + (a + c * m)⟩ x2 fs mkWin mkQ bins
       = Model.lpsdCore false 1 x1 x2 fs mkWin mkQ bins := by
   have h1 : (1 : ℤ) = -1 ∨ (1 : ℤ) = 0 ∨ (1 : ℤ) = 1 ∨ (1 : ℤ) = 2 := by decide
-  rw [lpsdCore_eq_ref_auto 1 h1 _ x2 fs mkWin mkQ hQ bins hK,
-    lpsdCore_eq_ref_auto 1 h1 x1 x2 fs mkWin mkQ hQ bins hK]
+  rw [lpsdCore_eq_ref_auto 1 h1 _ x2 fs mkWin mkQ bins (fun _ => hQ) hK,
+    lpsdCore_eq_ref_auto 1 h1 x1 x2 fs mkWin mkQ bins (fun _ => hQ) hK]
   apply List.map_congr_left
   intro b hb
   simp only [Model.refStatsAuto, segDFT_order1_add_line _ _ (hO b hb) (hS b hb)]
 
 theorem lpsdCore_order1_add_line_cross (x1 x2 : Arr ℝ) (fs : ℝ)
-    (mkWin : ℕ → Arr ℝ) (mkQ : ℕ → ℤ → Arr2 ℝ) (hQ : ∀ L, (mkQ L 1).m = 2)
-    (bins : List (Model.PBin ℝ)) (hK : ∀ b ∈ bins, 0 < b.D.n)
+    (mkWin : ℕ → Arr ℝ) (mkQ : ℕ → ℤ → Arr2 ℝ)
+    (bins : List (Model.PBin ℝ)) (hQ : ∀ b ∈ bins, (mkQ b.L 1).m = 2) (hK : ∀ b ∈ bins, 0 < b.D.n)
     (hO : ∀ b ∈ bins, OrthoCols (mkQ b.L 1).get b.L 2)
     (hS : ∀ b ∈ bins, ∀ c d : ℝ, InSpan (mkQ b.L 1).get b.L 2 (fun n => c + d * n)) (a1 c1 a2 c2 : ℝ) :
     Model.lpsdCore true 1 ⟨x1.n, fun m => x1.get m + (a1 + c1 * m)⟩
         ⟨x2.n, fun m => x2.get m + (a2 + c2 * m)⟩ fs mkWin mkQ bins
       = Model.lpsdCore true 1 x1 x2 fs mkWin mkQ bins := by
   have h1 : (1 : ℤ) = -1 ∨ (1 : ℤ) = 0 ∨ (1 : ℤ) = 1 ∨ (1 : ℤ) = 2 := by decide
-  rw [lpsdCore_eq_ref_cross 1 h1 _ _ fs mkWin mkQ hQ bins hK,
-    lpsdCore_eq_ref_cross 1 h1 x1 x2 fs mkWin mkQ hQ bins hK]
+  rw [lpsdCore_eq_ref_cross 1 h1 _ _ fs mkWin mkQ bins (fun _ => hQ) hK,
+    lpsdCore_eq_ref_cross 1 h1 x1 x2 fs mkWin mkQ bins (fun _ => hQ) hK]
   apply List.map_congr_left
   intro b hb
   simp only [Model.refStats, segDFT_order1_add_line _ _ (hO b hb) (hS b hb)]
@@ -205,7 +209,7 @@ example (order : ℤ) (hord : order = -1 ∨ order = 0 ∨ order = 1 ∨ order =
         (fun L o => ⟨L, (o + 1).toNat, fun _ _ => 0⟩) [⟨1 / 3, 3, ⟨2, fun j => 2 * j⟩⟩]
       = [Model.refStats order (fun _ _ => 0) x1.get x2.get (fun j => 2 * j) 2 3 (fun _ => 1)
           (2 * Real.pi * (1 / 3) / 2)] :=
-  lpsdCore_eq_ref_cross order hord x1 x2 2 _ _ (fun _ => rfl) _
+  lpsdCore_eq_ref_cross order hord x1 x2 2 _ _ _ (fun _ _ _ => rfl)
     (by intro b hb; rw [List.mem_singleton] at hb; subst hb; exact Nat.zero_lt_two)
 
 example (order : ℤ) (hord : order = -1 ∨ order = 0 ∨ order = 1 ∨ order = 2) (x1 x2 : Arr ℝ) :
@@ -213,7 +217,7 @@ example (order : ℤ) (hord : order = -1 ∨ order = 0 ∨ order = 1 ∨ order =
         (fun L o => ⟨L, (o + 1).toNat, fun _ _ => 0⟩) [⟨1 / 3, 3, ⟨2, fun j => 2 * j⟩⟩]
       = [Model.refStatsAuto order (fun _ _ => 0) x1.get (fun j => 2 * j) 2 3 (fun _ => 1)
           (2 * Real.pi * (1 / 3) / 2)] :=
-  lpsdCore_eq_ref_auto order hord x1 x2 2 _ _ (fun _ => rfl) _
+  lpsdCore_eq_ref_auto order hord x1 x2 2 _ _ _ (fun _ _ _ => rfl)
     (by intro b hb; rw [List.mem_singleton] at hb; subst hb; exact Nat.zero_lt_two)
 
 /-- the extra hypotheses of the order-1 corollary are satisfiable (L = 2, orthonormal 2×2 basis) -/
